@@ -41,7 +41,8 @@ def add_late(sc, rng):
     sc["late"] = sorted(late)
     # late listeners also bring event-named convention callbacks for the events of multi-event
     # transitions (they must run for their own event only, also when attached after the first firing)
-    multi = sorted({e for t in sc["trans"] if len(t["ev"]) > 1 for e in t["ev"]})
+    # (an event called `transition` has no event-named hooks of its own: their names are the generic hooks')
+    multi = sorted({e for t in sc["trans"] if len(t["ev"]) > 1 for e in t["ev"] if eng.evname(e) != "transition"})
     for p in late:
         for e in multi:
             for kind in (4, 5, 6):
@@ -202,7 +203,18 @@ def copy_attach_probe(sc):
         b_ = (copy.copy if sc["first"] == "copy" else copy.deepcopy)(a)
         x = L()
         with_x, without = (b_, a) if sc["side"] == "copy" else (a, b_)
-        with_x.add_listener(x)
+        if sc.get("via_observer"):
+            with_x.add_observer(x)           # the older name of add_listener
+        else:
+            with_x.add_listener(x)
+        # a deep copy of the machine it WAS attached to carries (a copy of) it along
+        twin = copy.deepcopy(with_x)
+        mine = [l_ for l_ in twin._listeners if isinstance(l_, L)]
+        before = sum(l_.calls for l_ in mine)
+        fire(twin)
+        if sum(l_.calls for l_ in mine) - before != 2 or len(mine) != 2:
+            bad.append(f"a deep copy of the machine with the late listener invoked {sum(l_.calls for l_ in mine) - before} "
+                       f"of its {len(mine)} listener(s) (expected both the constructor's and the late one)")
         later = [(copy.deepcopy if rng.random() < 0.7 else copy.copy)(without) for _ in range(rng.randint(1, 2))]
         for m in [without] + later:
             fire(m)
@@ -349,7 +361,42 @@ def d25_probe(sc):
     return {"probe": "d25", "bad": bad}
 
 
+def factory_listeners_probe(sc):
+    """two listener classes made by one factory (same qualified name) whose hook of the same name declares
+    different keyword-only parameters: each one receives exactly what IT declares"""
+    from statemachine import State, StateMachine
+    rec = []
+
+    def make(detailed):
+        if detailed:
+            class Audit:
+                def after_transition(self, *, event, source=None, target=None):
+                    rec.append(("detailed", str(event), getattr(source, "id", None), getattr(target, "id", None)))
+        else:
+            class Audit:
+                def after_transition(self, *, event):
+                    rec.append(("simple", str(event)))
+        return Audit()
+
+    class M(StateMachine):
+        a = State(initial=True)
+        b = State()
+        go = a.to(b) | b.to(a)
+    bad = []
+    with warnings.catch_warnings():
+        warnings.simplefilter("ignore")
+        first, second = (make(False), make(True)) if sc["order"] == "simple_first" else (make(True), make(False))
+        sm = M(listeners=[first])
+        sm.add_listener(second)
+        sm.send("go")
+    if sorted(rec) != [("detailed", "go", "a", "b"), ("simple", "go")]:
+        bad.append(f"received: {sorted(rec)}")
+    return {"probe": "factory_listeners", "bad": bad}
+
+
 def run_impl(sc):
+    if sc.get("probe") == "factory_listeners":
+        return factory_listeners_probe(sc)
     if sc.get("probe") == "d25":
         return d25_probe(sc)
     if sc.get("probe") == "expr_late":
@@ -380,6 +427,8 @@ def render_source(sc):
     if sc.get("probe") == "copy_attach":
         return (f"# probe: a = M(listeners=[L()]); b = copy.{sc['first']}(a); x = L(); attach x to the {sc['side']} only; "
                 "deep / shallow copies of the other one are made and driven: x must never be invoked by them\n")
+    if sc.get("probe") == "factory_listeners":
+        return "# probe: " + " ".join(factory_listeners_probe.__doc__.split()) + f" ({sc['order']})\n"
     if sc.get("probe") == "d25":
         return "# probe: " + " ".join(d25_probe.__doc__.split()) + "\n"
     if sc.get("probe") == "expr_late":
@@ -406,11 +455,16 @@ def generate(rng, tier):
         pr.append(sc)
     pr.append({"probe": "d11"})
     pr.append({"probe": "d25"})
+    pr.append({"probe": "factory_listeners", "order": "simple_first"})
+    pr.append({"probe": "factory_listeners", "order": "detailed_first"})
     for k in range(24):
         pr.append({"probe": "copy_attach", "seed": rng.randrange(10 ** 6), "first": ["copy", "deepcopy"][k % 2],
                    "side": ["copy", "original"][(k // 2) % 2]})
     for k in range(4):
         pr.append({"probe": "copy_attach", "seed": rng.randrange(10 ** 6), "first": "copy", "side": "copy", "shared_list": True})
+    for k in range(4):
+        pr.append({"probe": "copy_attach", "seed": rng.randrange(10 ** 6), "first": ["copy", "deepcopy"][k % 2],
+                   "side": ["copy", "original"][k // 2], "via_observer": True})
     texts = ["level >= 2", "level > 1 and ready", "not blocked", "ready", "level == 2 or blocked", "level != 0"]
     for k in range(12):
         pr.append({"probe": "expr_late", "seed": rng.randrange(10 ** 6), "text": texts[k % len(texts)],
